@@ -46,7 +46,7 @@ def make_dir(rng, root):
                 size = rng.choice([0, 1, 7, 100, 1024, 4096, rng.randint(0, 4096)])
                 with open(p, "wb") as fp:
                     fp.write(b"x" * size)
-                mt = 1_500_000_000 + rng.randint(0, 10**8) + rng.random()
+                mt = 1_500_000_000 + rng.randint(0, 10**8) + (rng.random() if rng.random() < 0.65 else 0)  # also whole seconds
                 os.utime(p, (mt, mt))
 
     fill(root, 0)
